@@ -1638,6 +1638,9 @@ func (h *Hashgraph) CheckBlock(block *Block, peerSet *peers.PeerSet) error {
 	}
 
 	validSignatures := 0
+	// a validator is counted once, however many times (under however many
+	// spellings of its key) it appears in the signature map
+	counted := make(map[string]bool)
 	for _, s := range block.GetSignatures() {
 		validatorHex := s.ValidatorHex()
 		if _, ok := peerSet.ByPubKey[validatorHex]; !ok {
@@ -1646,9 +1649,13 @@ func (h *Hashgraph) CheckBlock(block *Block, peerSet *peers.PeerSet) error {
 			}).Warning("Verifying Block signature. Unknown validator")
 			continue
 		}
+		if counted[validatorHex] {
+			continue
+		}
 		ok, _ := block.Verify(s)
 		if ok {
 			validSignatures++
+			counted[validatorHex] = true
 		}
 	}
 
